@@ -192,8 +192,10 @@ class C11(object):
                 ops.append(["item_value", rng.randint(0, 6)])
             elif r < 0.8:
                 ops.append(["batch_value", rng.randint(0, 3)])
-            elif r < 0.88:
+            elif r < 0.86:
                 ops.append(["batch_error", rng.randint(0, 3)])
+            elif r < 0.9:
+                ops.append(["sub_raise", rng.randint(0, 3)])
             else:
                 ops.append(["query", rng.randint(0, 3)])
         return {"debug": debug, "plans": plans, "ops": ops}
@@ -313,6 +315,17 @@ class C11(object):
                             got = ("V", None)
                         except AssertionError as e:
                             got = ("E", "AssertionError")
+                elif name == "sub_raise":
+                    # a subscriber of the batch's own completion that raises: flush() / cancel()
+                    # must still never raise, and everything else is unaffected
+                    if not W.batches:
+                        continue
+                    b = W.batches[op[1] % len(W.batches)]
+
+                    def boom(_):
+                        raise SimError("batch-subscriber-raises")
+                    b.on_computed.subscribe(boom)
+                    exp = got = ("V", None)
                 elif name in ("flush", "cancel", "batch_value", "batch_error", "query"):
                     if not W.batches:
                         continue
